@@ -19,6 +19,7 @@ type c03Case struct {
 	Tags  []string        `json:"tags,omitempty"`
 	Esc   bool            `json:"xml_escape_chars"`
 	Pol   int             `json:"order_policy"`
+	Dag   string          `json:"value_with_shared_containers,omitempty"` // built by dagMaps()[Dag] ("value" shows it unfolded)
 }
 
 func init() {
@@ -26,6 +27,11 @@ func init() {
 		var k c03Case
 		json.Unmarshal(cas, &k)
 		v := retype(fromJSON(string(k.Value)))
+		if k.Dag != "" {
+			v = dagMaps()[k.Dag]()
+			curDag = k.Dag
+			defer func() { curDag = "" }()
+		}
 		applyCfg(Cfg{AttrPrefix: "-", KeyPrefix: "#", EscEnc: k.Esc})
 		rt.OrderPolicy = k.Pol
 		c03Check(c, v, k.Enc, k.Tags, k.Esc)
@@ -280,7 +286,7 @@ func c03Check(c *Ctx, v interface{}, enc string, tags []string, esc bool) (nontr
 		return false
 	}
 	cas := func() interface{} {
-		return c03Case{Value: json.RawMessage(jsonOf(untype(v))), Enc: enc, Tags: tags, Esc: esc, Pol: rt.OrderPolicy}
+		return c03Case{Dag: curDag, Value: json.RawMessage(jsonOf(untype(v))), Enc: enc, Tags: tags, Esc: esc, Pol: rt.OrderPolicy}
 	}
 	shape := c03Shape(v)
 	before := dump(v)
@@ -327,7 +333,7 @@ func c03Check(c *Ctx, v interface{}, enc string, tags []string, esc bool) (nontr
 
 func c03Run(c *Ctx) {
 	mustBeDefault(c)
-	c.S.Rule = "cases = (value, encoder, tags, escaping): every JSON-shaped template with <= N nodes over keys {a, b, -x, #text} and leaves {\"s\", \" s \", \"\", 1, true, null} (lists 0-3 incl. nested and mixed, empty containers; attribute entries scalar, a null attribute entry may be refused with an error but never yields malformed output, text entries scalar incl. null) as multi-key root, single-key root (non-list value) and AnyXml argument (default and explicit tags); encoders Map.Xml, Map.XmlIndent, AnyXml, AnyXmlIndent, j2x.JsonToXml; a second family with strings of XML special characters and line-control characters (CR, LF, TAB) under XMLEscapeChars(true); an attribute-heavy family (keys {a,-x,-xy,-z,#text}, two to three attributes per element, empty and non-empty values side by side); a typed-number family (int, int64, float32, uint8, uint64, json.Number, float64 with large and small exponents as element, attribute and text values, <= 4 nodes); a scale family (lists of 33-1025 scalars / maps, a map with 70 keys and 40 attributes, nesting depth 100, strings of 5000 bytes). Oracle: output well formed with exactly one root, and decoding it gives the Map the reference decode prescribes for the abstract document the encoding rules denote. Ascending and descending map order; returned bytes are retained and re-checked after later calls. non-trivial = in-domain value encoded."
+	c.S.Rule = "cases = (value, encoder, tags, escaping): every JSON-shaped template with <= N nodes over keys {a, b, -x, #text} and leaves {\"s\", \" s \", \"\", 1, true, null} (lists 0-3 incl. nested and mixed, empty containers; attribute entries scalar, a null attribute entry may be refused with an error but never yields malformed output, text entries scalar incl. null) as multi-key root, single-key root (non-list value) and AnyXml argument (default and explicit tags); encoders Map.Xml, Map.XmlIndent, AnyXml, AnyXmlIndent, j2x.JsonToXml; a second family with strings of XML special characters and line-control characters (CR, LF, TAB) under XMLEscapeChars(true); an attribute-heavy family (keys {a,-x,-xy,-z,#text}, two to three attributes per element, empty and non-empty values side by side); a family of 8 values with shared containers (one map or list object - with children, attribute-only, text-only, empty - under several keys, at two depths or twice in a list; as single-key root and as multi-key root); a typed-number family (int, int64, float32, uint8, uint64, json.Number, float64 with large and small exponents as element, attribute and text values, <= 4 nodes); a scale family (lists of 33-1025 scalars / maps, a map with 70 keys and 40 attributes, nesting depth 100, strings of 5000 bytes). Oracle: output well formed with exactly one root, and decoding it gives the Map the reference decode prescribes for the abstract document the encoding rules denote. Ascending and descending map order; returned bytes are retained and re-checked after later calls. non-trivial = in-domain value encoded."
 	c.S.Assumptions = []string{"attribute and text entries never stand where an element name is needed (root key, AnyXml single-key list member): outside the property's valid-XML-name premise", "reference: value -> abstract document (harness/c03.go) -> reference decode (harness/ref_xml.go)"}
 	n, n2 := 5, 4
 	if c.Thorough {
@@ -394,6 +400,17 @@ func c03Run(c *Ctx) {
 			}
 			runAll(func() interface{} { return inst(t, nil) }, esc)
 		})
+	}
+	// values with shared containers (one map or list object under several keys / twice in a list)
+	applyCfg(Cfg{AttrPrefix: "-", KeyPrefix: "#"})
+	for _, name := range dagNames() {
+		mk := dagMaps()[name]
+		curDag = name
+		skipJSONRoute = true // the JSON route re-decodes the text: nothing is shared any more
+		runAll(func() interface{} { return mk() }, false)
+		runAll(func() interface{} { return mk()["r"] }, false)
+		skipJSONRoute = false
+		curDag = ""
 	}
 	// typed numbers: a caller-built Map may hold numbers of any Go numeric type, and json.Number
 	applyCfg(Cfg{AttrPrefix: "-", KeyPrefix: "#"})
